@@ -1276,6 +1276,25 @@ def rule_all_children_visited(ctx, rep: Report, rid="A3"):
                 f"`{unparse(c)[:60]}` under {gs}: child namespaces must be visited one by one from `{np_}.content` "
                 f"(a dictionary or a single look-up keeps one block of a re-opened namespace and drops the others)",
                 f"{ci.mod.rel}:{c.lineno}")
+        # both halves of what the recursive call returns (code, includes) are added to this call's own results
+        st = stmt_of(c)
+        names = []
+        if isinstance(st, ast.Assign) and isinstance(st.targets[0], (ast.Tuple, ast.List)):
+            names = [x.id for x in st.targets[0].elts if isinstance(x, ast.Name)]
+        rets = [r.value for r in walk_no_nested(fn) if isinstance(r, ast.Return) and isinstance(r.value, ast.Tuple)]
+        returned = {x.id for r in rets for x in ast.walk(r) if isinstance(x, ast.Name)}
+        blk = getattr(parent(st), "body", []) if st is not None else []
+        after = blk[blk.index(st) + 1:] if st in blk else []
+        lost = []
+        for nm in names:
+            used = any(isinstance(a, ast.AugAssign) and isinstance(a.target, ast.Name) and a.target.id in returned
+                       and any(isinstance(x, ast.Name) and x.id == nm for x in ast.walk(a.value)) for a in after)
+            if not used:
+                lost.append(nm)
+        if names:
+            rep.add(rid, f"wrap_namespace:recursive call #{k}:code and includes of the child namespace are both kept", not lost,
+                    f"{lost} returned by the recursive call is never added to what this call returns: the #include lines (or the bindings) "
+                    f"of a nested namespace are dropped silently", f"{ci.mod.rel}:{c.lineno}")
 
 
 def rule_boost_export_name(ctx, rep: Report, rid="W7"):
@@ -1385,3 +1404,94 @@ def rule_one_binding_per_member(ctx, rep: Report, rid="A9"):
                         f"{ci.mod.rel}:{cs[0].lineno}")
     if n < 3:
         raise AnalysisError(f"{rep.prop}/{rid}: only {n} per-member emitter loops found in PybindWrapper")
+
+
+def possible_values(fn, name: str, site: ast.AST) -> Optional[List[ast.AST]]:
+    """Values `name` may hold where `site` executes, from simple assignments on the way (branches joined, loops taken
+    zero or more times); None when the name is bound in a way this does not follow (unpacking, augmented assignment)."""
+    target_stmt = stmt_of(site)
+
+    class Stop(Exception):
+        pass
+    result: List[Optional[Set[int]]] = [None]
+    nodes: Dict[int, ast.AST] = {}
+
+    def run(stmts, cur: Optional[Set[int]]):
+        for st in stmts:
+            if st is target_stmt:
+                result[0] = cur
+                raise Stop()
+            if isinstance(st, ast.Assign) and len(st.targets) == 1 and isinstance(st.targets[0], ast.Name) and st.targets[0].id == name:
+                nodes[id(st.value)] = st.value
+                cur = {id(st.value)}
+            elif isinstance(st, (ast.Assign, ast.AugAssign, ast.AnnAssign)) and any(
+                    isinstance(x, ast.Name) and x.id == name and isinstance(x.ctx, ast.Store) for x in ast.walk(st)):
+                cur = None
+            elif isinstance(st, ast.If):
+                a = run(st.body, set(cur) if cur is not None else None)
+                b = run(st.orelse, set(cur) if cur is not None else None)
+                cur = None if a is None or b is None else a | b
+            elif isinstance(st, (ast.For, ast.While)):
+                a = run(st.body, set(cur) if cur is not None else None)
+                cur = None if a is None or cur is None else a | cur
+                cur2 = run(st.orelse, cur)
+                cur = cur2
+            elif isinstance(st, ast.With):
+                cur = run(st.body, cur)
+            elif isinstance(st, ast.Try):
+                a = run(st.body, set(cur) if cur is not None else None)
+                outs = [a]
+                for h in st.handlers:
+                    outs.append(run(h.body, set(cur) if cur is not None else None))
+                cur = None if any(o is None for o in outs) else set().union(*outs)
+                cur = run(st.finalbody, cur)
+        return cur
+    try:
+        run(fn.body, set())
+    except Stop:
+        pass
+    if result[0] is None:
+        return None
+    return [nodes[i] for i in result[0]]
+
+
+def rule_value_slot_never_empty(ctx, rep: Report, rid="W9"):
+    """A template that writes `<target> = <...><value>;` gets a value on every path: the local that fills the last slot
+    in front of the `;` cannot still hold the empty string it may have been initialised with (a deleted or mis-nested
+    assignment in one branch leaves `m.attr("x") = ;`, which does not compile)."""
+    ci, prog = pw(ctx)
+    n = 0
+    for mname, fn in sorted(ci.methods.items()):
+        fo = folder_for(ctx, fn)
+        for call in [x for x in walk_no_nested(fn) if isinstance(x, ast.Call) and isinstance(x.func, ast.Attribute) and x.func.attr == "format"]:
+            try:
+                t = fo.fold(call)
+            except Exception:
+                t = None
+            if t is None:
+                continue
+            parts = t.parts
+            for i, p_ in enumerate(parts):
+                if isinstance(p_, str) or i + 1 >= len(parts) or not isinstance(parts[i + 1], str) or not parts[i + 1].startswith(";"):
+                    continue
+                # walk back over adjacent slots to the literal in front: it must end with `= `
+                j = i
+                while j > 0 and not isinstance(parts[j - 1], str):
+                    j -= 1
+                if j == 0 or not parts[j - 1].rstrip(" ").endswith("="):
+                    continue
+                e = p_.expr
+                if not isinstance(e, ast.Name):
+                    continue
+                n += 1
+                vals = possible_values(fn, e.id, call)
+                if vals is None:
+                    rep.add(rid, f"{mname}:{{{p_.key}}}:the assigned value is never the empty string", True, "not decided: bound by unpacking / augmented assignment",
+                            f"{ci.mod.rel}:{call.lineno}", nontrivial=False)
+                    continue
+                empty = [v for v in vals if isinstance(v, ast.Constant) and v.value == ""]
+                rep.add(rid, f"{mname}:{{{p_.key}}}:the assigned value is never the empty string", not empty and bool(vals),
+                        f"`{e.id}` may still be '' (line {empty[0].lineno if empty else 0}) where the template is filled: the statement reads `... = ;`",
+                        f"{ci.mod.rel}:{call.lineno}")
+    if n < 1:
+        raise AnalysisError(f"{rep.prop}/{rid}: no `= <value>;` template found in the pybind emitter")
